@@ -273,6 +273,30 @@ func c02fEvaluate(r *c02fRun) (o c02fOut) {
 			}
 		}
 		rt = c02fCanonR(rt)
+		// the j-th SUCC:<digest> answers the j-th MD5 message delivered: the values must be equal
+		{
+			var handed [][]byte
+			for _, m := range recvIn {
+				if m.kind == "MD5" {
+					handed = append(handed, m.raw)
+				}
+			}
+			j := 0
+			for _, rp := range replies {
+				if !rp.saved {
+					continue
+				}
+				if j >= len(handed) || !bytes.Equal(handed[j], rp.dig) {
+					h := []byte(nil)
+					if j < len(handed) {
+						h = handed[j]
+					}
+					viol("fault-tie:answered-other-digest", "the receiver answered SUCC:<digest> although the MD5 value delivered to it is a different one",
+						fmt.Sprintf("file %q: answered %s, delivered %s", rp.name, hx(rp.dig), hx(h)))
+				}
+				j++
+			}
+		}
 		var saved []string
 		for k, rp := range replies {
 			if !rp.saved || k >= len(names) {
